@@ -19,11 +19,14 @@ pub struct Scripted {
     pub fail_seek: usize,
     seeks: usize,
     pub hard: usize,
+    /// the data sits at absolute position `base` of a (virtually) much longer stream: every position the reader reports
+    /// or accepts is offset by it
+    pub base: u64,
 }
 
 impl Scripted {
     pub fn new(data: Vec<u8>, script: Vec<i64>) -> Self {
-        Self { data, pos: 0, script, next: 0, calls: vec![], fail_seek: 0, seeks: 0, hard: 0 }
+        Self { data, pos: 0, script, next: 0, calls: vec![], fail_seek: 0, seeks: 0, hard: 0, base: 0 }
     }
 }
 
@@ -56,7 +59,7 @@ impl deku::no_std_io::Seek for Scripted {
     fn seek(&mut self, pos: deku::no_std_io::SeekFrom) -> deku::no_std_io::Result<u64> {
         use deku::no_std_io::SeekFrom;
         let (code, off, new) = match pos {
-            SeekFrom::Start(o) => (0, o as i64, o as i64),
+            SeekFrom::Start(o) => (0, (o % (1 << 31)) as i64, o as i64 - self.base as i64),
             SeekFrom::End(o) => (2, o, self.data.len() as i64 + o),
             SeekFrom::Current(o) => (1, o, self.pos as i64 + o),
         };
@@ -72,7 +75,7 @@ impl deku::no_std_io::Seek for Scripted {
         }
         self.pos = (new as usize).min(self.data.len());
         self.calls.push(json!(["s", code, off, self.pos]));
-        Ok(self.pos as u64)
+        Ok(self.base + self.pos as u64)
     }
 }
 
@@ -113,6 +116,11 @@ pub fn cmd_reader() {
         let mut rd = Scripted::new(data, script.clone());
         rd.pos = prefix;
         rd.fail_seek = v["fail_seek"].as_u64().unwrap_or(0) as usize;
+        // "base": [hi, lo] - the absolute position of the first byte is hi * 2^31 + lo (kept in two parts: the trace
+        // checker's integers are 32 bits wide)
+        if let Some(b) = v["base"].as_array() {
+            rd.base = b[0].as_u64().unwrap_or(0) * (1u64 << 31) + b[1].as_u64().unwrap_or(0);
+        }
         let r = catch_unwind(AssertUnwindSafe(|| Frame::from_reader(&mut rd)));
         let (mut o, mut outcome) = proj(r);
         if chain && outcome == "ok" {
